@@ -781,7 +781,17 @@ func runSweep(c *core.Ctx) {
 		}
 		s := &sweepReplay{Sweep: strings.Repeat(pre, off) + body, Invert: invert, Wide: wide}
 		full = full && wide
+		if tooManyHangs(c) {
+			return
+		}
+		h0 := hangs
 		if c.Probe(func() { sweepCheck(c, s, full) }) {
+			if hangs > h0 {
+				// the write does not return: report as is, every further probe costs the timeout
+				sweepCheck(c, s, full)
+				c.Case("sweep", fmt.Sprintf("%s/%v/%v", s.Sweep, invert, wide), true)
+				return
+			}
 			// shrink: drop rows from the end, then from the front
 			cur := *s
 			for len(cur.Sweep) > 1 {
@@ -814,6 +824,9 @@ func runSweep(c *core.Ctx) {
 		for l := 1; l <= 130; l++ {
 			for _, off := range []int{c.Rng.Intn(64), 63} {
 				s := &sweepReplay{Sweep: strings.Repeat("0", off) + strings.Repeat("1", l) + "0", Invert: l%2 == 0, Wide: l%4 == 1}
+				if tooManyHangs(c) {
+					break
+				}
 				sweepCheck(c, s, false)
 				c.Case("sweep-runs", s.Sweep, true)
 			}
@@ -836,6 +849,9 @@ func runSweep(c *core.Ctx) {
 					second = "0"
 				}
 				s := &sweepReplay{Sweep: strings.Repeat(first, off) + strings.Repeat(second, l) + first, Invert: (l+off)%3 == 0, Wide: (l+off)%16 == 0}
+				if tooManyHangs(c) {
+					break
+				}
 				if !sweepCheck(c, s, false) {
 					cnt++
 				}
